@@ -111,7 +111,8 @@ func RunDiff(t *testing.T, d *DiffIn, keepLog bool) *Result {
 			// a preview followed by the identical real write answers what the real write answers
 			if o.Op.Twin > 0 && i+1 < len(plus.Ops) {
 				r := plus.Ops[i+1]
-				if r.Gen == o.Gen && r.Returned && o.Returned && !r.Op.Preview {
+				// (not when a store error was injected under the preview: the real write met none)
+				if r.Gen == o.Gen && r.Returned && o.Returned && !r.Op.Preview && !o.storeFaulted {
 					if o.ErrClass != r.ErrClass {
 						add("preview-answer-differs-from-real-write", fmt.Sprintf("preview %s ended with %q, the identical real write %s right after it with %q", o.Name, o.ErrClass, r.Name, r.ErrClass), "kind="+o.Op.Kind, "outcome")
 					} else if o.Tx != nil && r.Tx != nil {
@@ -235,6 +236,16 @@ func GenDiffIn(t *rapid.T) *DiffIn {
 	}
 	if pct(t, 25, "hasWriteFail") {
 		in.SFaults = append(in.SFaults, StoreFail{Method: "InsertLogs", Nth: rapid.IntRange(1, 8).Draw(t, "wfNth"), Mode: rapid.IntRange(1, 2).Draw(t, "wfMode")})
+	}
+	// a read of the store fails under a preview (the fault is addressed to the preview, so the
+	// history without previews meets no fault): whatever the failed preview leaves behind must
+	// not change what the later requests do
+	if np > 0 && pct(t, 35, "hasPreviewReadFail") {
+		n := rapid.IntRange(1, 2).Draw(t, "nPreviewReadFail")
+		for i := 0; i < n; i++ {
+			in.SFaults = append(in.SFaults, StoreFail{OpTag: fmt.Sprintf("p%d", rapid.IntRange(0, np-1).Draw(t, "prfOp")),
+				Method: rapid.SampledFrom(readMethods[:5]).Draw(t, "prfMethod"), Nth: rapid.IntRange(1, 2).Draw(t, "prfNth"), Mode: 1})
+		}
 	}
 	return &DiffIn{Plus: in}
 }
